@@ -20,12 +20,21 @@ struct Case {
 fn gen_case(rng: &mut Rng) -> Case {
     let n_events = 20 + rng.below(180);
     let nkeys = 1 + rng.below(8);
+    let r = rng.below(6);
+    // Events without the key field form ONE partition of their own. For the single-type window
+    // programs (kinds 3, 4) they are part of the workload; for sequences over two event types the
+    // CLI pins key-less events by event type, which already splits that partition on the unchanged
+    // tree - the statement's premise (state partitioned by the selected key) does not cover them.
+    let keyless = (r == 3 || r == 4) && rng.chance(1, 2);
     let mut evt = String::new();
     for i in 0..n_events {
         let ty = ["A", "B"][rng.below(2)];
-        evt.push_str(&format!("{} {{ uid: {}, x: {}, k: {} }}\n", ty, i + 1, rng.range(0, 5), 1 + rng.below(nkeys)));
+        if keyless && rng.chance(1, 6) {
+            evt.push_str(&format!("{} {{ uid: {}, x: {} }}\n", ty, i + 1, rng.range(0, 5)));
+        } else {
+            evt.push_str(&format!("{} {{ uid: {}, x: {}, k: {} }}\n", ty, i + 1, rng.range(0, 5), 1 + rng.below(nkeys)));
+        }
     }
-    let r = rng.below(6);
     let (kind, vpl) = match r {
         0 => ("stateless-filter", format!("stream S1 = A\n    .where(x >= {})\n    .emit(uid: uid, x: x, k: k)\n", rng.range(0, 4))),
         1 => (
@@ -139,7 +148,7 @@ fn main() {
     install_quiet_panic_hook();
     watchdog("C18", args.pick(1500, 14400));
     let mut rep = Report::new("C18", "exploration", &args);
-    rep.rule = "stateless programs (filters, two streams, a derived stream) and programs whose only state is partitioned by k (partitioned count / sliding-count windows with uid fingerprints, partitioned 2-step sequences); generated .evt files of 20-200 events over 1-8 integer keys, every event carrying k (<= 800 outputs so the 1000 x N output channel cannot drop); the real `varpulis simulate --immediate --verbose --workers N` binary with and without --preload, N in 2..8, compared with N=1 as sorted multisets of OUTPUT EVENT lines. Non-trivial: run with N>=2 whose reference has outputs for >=2 keys (or >=2 outputs for stateless programs); distinct by (program, event file, N, mode).".into();
+    rep.rule = "stateless programs (filters, two streams, a derived stream) and programs whose only state is partitioned by k (partitioned count / sliding-count windows with uid fingerprints, partitioned 2-step sequences); generated .evt files of 20-200 events over 1-8 integer keys, events carrying k (for the single-type window programs also events WITHOUT k, which form one partition of their own) (<= 800 outputs so the 1000 x N output channel cannot drop); the real `varpulis simulate --immediate --verbose --workers N` binary with and without --preload, N in 2..8, compared with N=1 as sorted multisets of OUTPUT EVENT lines. Non-trivial: run with N>=2 whose reference has outputs for >=2 keys (or >=2 outputs for stateless programs); distinct by (program, event file, N, mode).".into();
     rep.assume("the binary is built from /repo's current tree (cargo build -p varpulis-cli --bin varpulis, dev profile, hook guard off) before the runs");
     rep.assume("a subprocess that exceeds 60 s is inconclusive (loaded machine), never a violation");
     let bin = match build_cli(&args.verif_dir) {
